@@ -135,11 +135,16 @@ pub fn install_panic_hook() {
 pub fn panic_class(raw: &str) -> String {
     let (loc, msg) = raw.split_once('|').unwrap_or(("", raw));
     let file = loc.rsplit_once(':').map_or(loc, |(f, _)| f);
-    let head: String = msg
-        .chars()
-        .take(70)
-        .map(|c| if c.is_ascii_digit() { '#' } else if c == '\n' { ' ' } else { c })
-        .collect();
+    let mut head = String::new();
+    for c in msg.chars().take(70) {
+        // a run of digits is one '#': the same site with a longer number is the same class
+        match c {
+            '0'..='9' if head.ends_with('#') => {}
+            '0'..='9' => head.push('#'),
+            '\n' => head.push(' '),
+            c => head.push(c),
+        }
+    }
     format!("panic@{file}:{head}")
 }
 
